@@ -67,6 +67,11 @@ def hProjItem : ProjItem → Sexp
 def handleHandler : List Sexp → Option String
   | [atom "h-handle", ds, p, q] => do
     pure (hOutcome (handle intText (← hDataset? ds) (← hStr? p) (← hStr? q)))
+  | [atom "h-exc", ds, p, q] => do
+    -- which exception class (constructor of `Exc`) the guarded region raises for this request
+    match guarded (← hDataset? ds) (← hStr? p) (← hStr? q) with
+    | .ok (k, _) => pure ("ok:" ++ hKind k)
+    | .error e => pure ("err:" ++ hExc e)
   | [atom "h-pinned", ds, p, q] => do
     pure (hOutcome (handlePinned intText (← hDataset? ds) (← hStr? p) (← hStr? q)))
   | [atom "h-parsece", q] => do
